@@ -56,6 +56,20 @@ pub fn main_props_len(w: &model::WPacket) -> Option<usize> {
     }
 }
 
+/// What a user of the packet can see of its topic filters and topic names beyond their text: the shared-subscription
+/// and `$SYS` accessors. A decoded packet that is "equal to the original" answers these like the original does.
+pub fn observations<F: Family>(p: &F::Packet) -> Vec<String> {
+    use crate::walk::Field;
+    F::walk(p)
+        .iter()
+        .filter_map(|f| match f {
+            Field::Filter(l, x) => Some(format!("{} {:?}: is_shared {}, shared_group_name {:?}, shared_filter {:?}, shared_info {:?}", l, &***x, x.is_shared(), x.shared_group_name(), x.shared_filter(), x.shared_info())),
+            Field::Name(l, x) => Some(format!("{} {:?}: is_shared {}, is_sys {}", l, &***x, x.is_shared(), x.is_sys())),
+            _ => None,
+        })
+        .collect()
+}
+
 pub fn roundtrip<F: Family>(p: &F::Packet, ctx: &mut Ctx) -> CaseResult {
     let enc = match F::encode(p) {
         Ok(b) => b,
@@ -77,7 +91,13 @@ pub fn roundtrip<F: Family>(p: &F::Packet, ctx: &mut Ctx) -> CaseResult {
 
     // blocking
     match F::decode(bytes) {
-        Ok(Some(q)) => ensure!(q == *p, "blocking decode returned a different packet: {} (original {}) bytes {}", fam::render(&q), fam::render(p), hex_short(bytes, 64)),
+        Ok(Some(q)) => {
+            ensure!(q == *p, "blocking decode returned a different packet: {} (original {}) bytes {}", fam::render(&q), fam::render(p), hex_short(bytes, 64));
+            if bytes.len() <= 1 << 16 {
+                let (a, o) = (observations::<F>(&q), observations::<F>(p));
+                ensure!(a == o, "blocking decode returned a packet whose topic accessors answer differently from the original's: {:?} (original {:?})", a, o);
+            }
+        }
         other => viol!("blocking decode of the encoding returned {:?}; packet {} bytes {}", other.map(|o| o.map(|q| fam::render(&q))), fam::render(p), hex_short(bytes, 64)),
     }
     // async
@@ -91,13 +111,29 @@ pub fn roundtrip<F: Family>(p: &F::Packet, ctx: &mut Ctx) -> CaseResult {
                 ensure!(F::project(&q) == F::project(p), "async decode returned a packet that the library calls equal but whose field values differ: {} (original {})", fam::render(&q), fam::render(p));
             }
             ensure!(consumed == bytes.len(), "async decode consumed {} of {} bytes", consumed, bytes.len());
+            if bytes.len() <= 1 << 16 {
+                let (a, o) = (observations::<F>(&q), observations::<F>(p));
+                ensure!(a == o, "async decode returned a packet whose topic accessors answer differently from the original's: {:?} (original {:?})", a, o);
+            }
         }
         Err(e) => viol!("async decode of the encoding failed: {:?}; packet {} bytes {}", e, fam::render(p), hex_short(bytes, 64)),
+    }
+    // async, on a connection that stays open and idle behind the packet: the packet is complete, nothing more is needed
+    if bytes.len() <= 1 << 20 {
+        match fam::dec_async_idle::<F>(bytes) {
+            Ok((Ok(q), consumed)) => ensure!(q == *p && consumed == bytes.len(), "async decode on an idle connection returned {} after {} of {} bytes (original {})", fam::render(&q), consumed, bytes.len(), fam::render(p)),
+            Ok((Err(e), _)) => viol!("async decode on a connection that stays idle behind the packet failed: {:?}; packet {} bytes {}", e, fam::render(p), hex_short(bytes, 64)),
+            Err(m) => viol!("async decode on a connection that stays idle behind the packet: {}; packet {} bytes {}", m, fam::render(p), hex_short(bytes, 64)),
+        }
     }
     // poll
     let run = fam::dec_poll::<F>(bytes);
     match run.result {
         Ok(ok) => {
+            if bytes.len() <= 1 << 16 {
+                let (a, o) = (observations::<F>(&ok.pkt), observations::<F>(p));
+                ensure!(a == o, "poll decode returned a packet whose topic accessors answer differently from the original's: {:?} (original {:?})", a, o);
+            }
             ensure!(ok.pkt == *p, "poll decode returned a different packet: {} (original {})", fam::render(&ok.pkt), fam::render(p));
             if bytes.len() <= 1 << 20 {
                 ensure!(F::project(&ok.pkt) == F::project(p), "poll decode returned a packet that the library calls equal but whose field values differ: {} (original {})", fam::render(&ok.pkt), fam::render(p));
